@@ -58,7 +58,9 @@ def absmax_scale(base: torch.Tensor, qtype: qtype = qint8, axis: Optional[int] =
         dim = axis_to_dim(base, axis)
         qranges = torch.amax(base, dim=dim, keepdim=True)
     info = dtype_info(qtype.dtype)
-    return qranges / info.max
+    # Avoid a null scale (all-zero or underflowing range) that would produce 0/0 quantized values
+    finfo = torch.finfo(base.dtype)
+    return torch.clamp(qranges / info.max, min=finfo.smallest_normal * finfo.eps)
 
 
 class Calibration(TorchFunctionMode):
